@@ -52,6 +52,12 @@ def mk(subset, ending, meddle=False):
             acts.append('gc_debug')
         if 'warnings' in subset:
             acts.append('warn_reset')
+        if 'profile' in subset:
+            # the directory the profiler is to write its data to disappears during the run: the run ends with an exception
+            # from the feature that cannot finish, but whatever the other features changed is restored all the same
+            acts.append('rm_profile_dir')
+            opts += ['--profile-directory', 'profdir']
+            world['mkdirs'] = ['profdir']
         tests.append({'layer': 0, 'meddle': acts})
     if ending == 'failing':
         tests += [{'layer': 0, 'body': 'fail'}, {'layer': 0, 'body': 'error', 'tearDown': 'error'}]
